@@ -187,7 +187,7 @@ func c10Keys(p *ana.Prog, r *ana.Result) {
 		ok := false
 		ana.Instrs(nr, func(in ssa.Instruction) {
 			if st, isSt := in.(*ssa.Store); isSt {
-				if ch, _ := fieldChain(st.Addr); ch == "Key" && strings.HasSuffix(ana.AccessPath(st.Val), "ntskeData.C2sKey") {
+				if ch, _ := fieldChain(st.Addr); (ch == "Key" || ch == "Auth.Key") && strings.HasSuffix(ana.AccessPath(st.Val), "ntskeData.C2sKey") {
 					ok = true
 				}
 			}
